@@ -61,7 +61,7 @@ Lemma refuted_fullsync_continue :
   snd a = [RGone] /\ snd b = [ROk; ROk; ROk; ROk] /\ obs [] (fst a) <> obs [] (fst b).
 Proof. vm_compute. repeat split; discriminate. Qed.
 
-Definition cfg5 : jobcfg := {| j_paused := false; j_src := 1; j_sink := 2; j_delay := Some 5 |}.
+Definition cfg5 : jobcfg := {| j_paused := false; j_src := 1; j_sink := 2; j_delay := Some 5; j_trig := -1 |}.
 (** F14e: the stored job definition changes with every start *)
 Lemma refuted_delay_rescaled : visible only_delay [HJob (JAdd 0 cfg5)] [].
 Proof. vm_compute. discriminate. Qed.
@@ -99,13 +99,14 @@ Proof.
 Qed.
 
 Theorem pinned_delay_always_moves j c d s :
-  j_delay c = Some d -> - 2 ^ 63 <= d < 2 ^ 63 -> assoc j (d_jcfg s) = Some c ->
+  j_trig c < 0 -> j_delay c = Some d -> - 2 ^ 63 <= d < 2 ^ 63 -> assoc j (d_jcfg s) = Some c ->
   In (j, verify_cfg DelayRescale c) (d_jcfg (job_reopen DelayRescale s))
   /\ j_delay (verify_cfg DelayRescale c) <> j_delay c.
 Proof.
-  intros Hd Hr Ha. split.
-  - unfold job_reopen. cbn. apply in_map_iff. exists (j, c). split; [reflexivity | now apply assoc_in].
-  - cbn. rewrite Hd. cbn. intros [= E]. now apply (rescale_moves d).
+  intros Ht Hd Hr Ha. split.
+  - unfold job_reopen. cbn [d_jcfg]. apply in_map_iff. exists (j, c). split; [reflexivity | now apply assoc_in].
+  - unfold verify_cfg. destruct (0 <=? j_trig c) eqn:E; [apply Z.leb_le in E; lia|].
+    cbn. rewrite Hd. cbn. intros [= E']. now apply (rescale_moves d).
 Qed.
 
 (** F14c: after a restart the live map is a function of the stored objects alone *)
